@@ -19,6 +19,7 @@ TECHNIQUE = ("runtime monitoring: batch files written by real sows are read back
 RULE = ("every N in 1..Nmax x every batchsize in 1..N+1 and every num_batches in 1..N+2 (Nmax = 16 quick / 48 thorough, "
         "grids; case lists up to 12 / 24), plus seeded samples with shuffle settings, constants, cases x sub-grids and "
         "farmer-provided constants/resources (also one name held as both, expectation recorded from a real direct run); every crop is reloaded both bare and by the same constructor call; re-sows (same/other N, same/reloaded crop) either refused untouched or an exact partition, an identical re-sow always accepted and honouring the request again, also on the same object after a reap deleted the crop; a size AND a count that agree exactly (s * k = N); sows of 2000-3400 settings; count crops whose first sow divided evenly, re-sown with fewer settings; subclasses of Runner as farmers; crops sown anew behind a long-lived Crop object; distinct by (N, mode, value, workload form, shuffle); non-trivial when N >= 2")
+RULE += '; a farmer resource named like the last swept argument (expectation recorded from a real direct run)'
 ASSUMPTIONS = [
     "in count mode the crop's reported batchsize is the smaller of the two sizes (every batch has batchsize or batchsize+1 settings)",
 ]
